@@ -168,6 +168,22 @@ pub fn run(ctx: &Ctx) -> Outcome {
             let m = RefMsg::Data { offset: 0x0010, data: vec![] };
             let w = check_message(&m, rep);
             inj.note(w, &m, rep);
+            // the longest chunks filled with one extreme value under an offset made of the same value: the largest byte
+            // sums there are, unsigned (FF) and signed (80 = -128, 7F = +127)
+            for len in 250..=255usize {
+                for fill in [0xFFu8, 0x80, 0x7F, 0x81, 0xFE, 0x01] {
+                    for offset in [u16::from(fill) << 8 | u16::from(fill), u16::from(fill) << 8 | 1, u16::from(fill) << 8, 0] {
+                        for last in [fill, fill.wrapping_add(1), 0] {
+                            let mut data = vec![fill; len];
+                            data[len - 1] = last;
+                            let m = RefMsg::Data { offset, data };
+                            let w = check_message(&m, rep);
+                            inj.note(w, &m, rep);
+                            rep.count("extreme_byte_sum_chunks");
+                        }
+                    }
+                }
+            }
             rep.count("data_sweep_done");
         } else {
             let mut rng = ctx.rng("random", (shard - 257) as u64);
@@ -200,6 +216,7 @@ pub fn run(ctx: &Ctx) -> Outcome {
     let mut floors = vec![
         floor("all 65536 addresses swept", report.get("addresses_swept") == 65_536, report.get("addresses_swept")),
         floor("data-chunk sweep done", report.get("data_sweep_done") == 1, report.get("data_sweep_done")),
+        floor("longest chunks of FF / 80 / 7F under offsets of the same value (largest unsigned and signed byte sums)", report.get("extreme_byte_sum_chunks") == 6 * 6 * 4 * 3, report.get("extreme_byte_sum_chunks")),
         floor("every data length 0..=255 observed", report.set_len("data_lengths") == 256, report.set_len("data_lengths")),
         floor("injectivity map populated", report.get("injectivity_entries") > 10_000, report.get("injectivity_entries")),
     ];
